@@ -607,6 +607,8 @@ class C20(ModelCheck):
         "package names are compared as written (no PEP 503 normalisation); white space around '==' is not generated (the documented format is pkg==version)",
         "file processing order inside one location (apps/*) is whatever the file system lists; both orders are reached by permuting file contents over the locations",
         "the 'sources' list of the returned table is not checked (log text only)",
+        "when the (simulated) installer installs nothing for an unpinned requirement there is no version to record: the package is not recorded and a stale entry for it is dropped (resolved in favour of the code; only reachable with the do-nothing installer of the repo's own tests)",
+        "one Home Assistant test instance per allow_all_imports value is shared by the cases of a shard (renewed every 400 cases); the requirements files of each case live in their own tempfile.mkdtemp directory (under /dev/shm when present and TMPDIR is unset, else the default temp dir), removed after the case",
     ]
 
     def run_shard(self, tier, shard_i, shard_n):
@@ -745,6 +747,8 @@ class C20(ModelCheck):
         classes = ["perms-exhaustive" if exhaustive else "perms-random", "allow" if case["allow"] else "deny",
                    "installer-" + case.get("installer", "ok"), f"files={len(case['slots'])}"]
         classes += ["has-" + k for k in sorted(kinds)]
+        n_arr = len(arrs)
+        classes.append("arrangements=" + ("1" if n_arr == 1 else "2-6" if n_arr <= 6 else "7-24" if n_arr <= 24 else "25-120"))
         pins = [l["v"] for _f, l in case["lines"] if l["k"] == "pin"]
         if len({canon(v) for v in pins}) < len(set(pins)):
             classes.append("equal-versions-spelt-differently")
@@ -813,4 +817,11 @@ def replay(path):
 
 
 def main(tier):
-    return CHECK.main(tier)
+    return CHECK.main(tier, extra={
+        "exhaustive": False,
+        "exhaustive_parts": {
+            "permutations": "all arrangements (files over locations x lines inside files) of every case with <= 5 lines",
+            "small_sets": f"all multisets of <= {3 if tier == 'quick' else 4} lines from the 9-line alphabet x file splits x 8 environment combinations",
+        },
+        "finding_ids_recognised": [fid for _sw, fid in SWITCH_IDS],
+    })
